@@ -7,7 +7,7 @@ NOT_APPLICABLE = {
     'C14': 'quantifies over rayon thread schedules; Kani has no threads and Verus cannot see rayon; the reachable fragment (commutativity/associativity of vector addition) is decided under C13 (DESIGN.md §5)',
     'C15': 'statement about exact probability laws over all random tapes; neither verifier has a probabilistic logic and the num-bigint/num-rational arithmetic would be all assumed contracts (DESIGN.md §5)',
 }
-for _p in ['C01', 'C02', 'C03', 'C04', 'C05', 'C06', 'C07', 'C08', 'C10', 'C11', 'C12', 'C13', 'C16', 'C17', 'C18', 'C19', 'C20']:
+for _p in ['C01', 'C02', 'C03', 'C04', 'C05', 'C06', 'C07', 'C08', 'C10', 'C11', 'C12', 'C16', 'C17', 'C18', 'C19', 'C20']:
     NOT_APPLICABLE[_p] = _PENDING
 
 TEXT = {
@@ -19,5 +19,13 @@ TEXT = {
         'note': 'Trusted: std overflowing_add/sub semantics (assume_specification), From<bool>; Field255 limb arithmetic (fiat-crypto) is not verified; primality of the moduli is assumed where "inverse" is claimed. Extraction rewrites are listed per function in evidence/extract/.',
         'technique': 'function contracts (requires/ensures) on extracted real code, Verus/Z3; full-domain Kani harnesses with contract stubs',
         'design_ref': 'DESIGN.md §4 C09',
+    },
+    'C13': {
+        'text': 'Proof for the algebra, bounded for the vector plumbing. Field addition is proved commutative/associative with zero identity for ALL elements of the 32/64/128-bit fields; '
+                'merge_vector / AggregateShare::{merge,accumulate} / Poplar1FieldVec::{merge,accumulate} / Aggregator::aggregate carry the contract "mismatch => Err and accumulator unchanged, else pointwise sum" '
+                '(Kani on the real code, vector length <= 3, itemised as bounded); order/grouping/batch-split independence for any length and any partition is then a machine-checked Verus lemma over sequences.',
+        'note': 'Field255 element addition is fiat-crypto (assumed). Bounded stand-ins are listed in evidence coverage.bounded[] and are not counted in obligations/discharged.',
+        'technique': 'function contracts with frame conditions (Kani harnesses on the real crate) + Verus sequence lemmas over the contracts',
+        'design_ref': 'DESIGN.md §4 C13',
     },
 }
